@@ -92,10 +92,14 @@ func Harness_C08_Lifecycle() {
 	verifrt.Reach("created")
 
 	// update with an anchoring window around the transaction time
-	windowed := verifrt.Choose("window", 2) == 1
 	var from, until int64
-	if windowed {
+	switch verifrt.Choose("window", 4) {
+	case 1:
 		from, until = 150, 250
+	case 2:
+		until = 250 // expiry only
+	case 3:
+		from = 150 // not-before only
 	}
 	updPatch := gen.KeyPatch("added")
 	req, err = NewUpdateRequest(&UpdateRequestInfo{DidSuffix: did, Patches: []patch.Patch{updPatch}, UpdateCommitment: gen.Commitment(upd2.JWK, e.code),
@@ -103,6 +107,10 @@ func Harness_C08_Lifecycle() {
 	if err != nil {
 		verifrt.Fail("update builder refuses valid input")
 		return
+	}
+	if internal, perr := e.parser.ParseOperation(e.ns, req, false); perr == nil {
+		sd, serr := e.parser.ParseSignedDataForUpdate(internal.SignedData)
+		verifrt.Assert(serr == nil && sd.AnchorFrom == from && sd.AnchorUntil == until, "the signed data carries exactly the requested anchoring window")
 	}
 	prevDoc := st.Doc
 	st = e.accept(req, st, operation.TypeUpdate, 200, "update")
